@@ -133,6 +133,9 @@ def streams(fr, cr):
     return {
         "facilities": [e(fr["cam"]), e(fr["denm2"]), e(fr["vam"])],
         "multihop": [e(resn(cr["tsb"], 111), MAC_S), e(resn(cr["gbc0"], 112), MAC_S), e(resn(cr["guc_d"], 116), MAC_S)],
+        # the originals themselves: a frame that is discarded as malformed must not leave its (source, sequence number)
+        # behind either - judged for malformed frames only (a well-formed variant legitimately makes the original a duplicate)
+        "multihop_same_sn": [e(cr["tsb"], MAC_S), e(cr["gbc0"], MAC_S), e(cr["gac0"], MAC_S), e(cr["guc_d"], MAC_S)],
     }
 
 
@@ -165,6 +168,8 @@ def family_job(args):
                 continue
             if alternate and (idx + si) % 2:
                 continue            # big families (quick tier): alternate the stream per frame
+            if sname == "multihop_same_sn" and cls != "malformed":
+                continue
             for pos in positions:
                 n += 1
                 r = copy.deepcopy(T["R1" if ldm_flag else "R0"])
